@@ -1,6 +1,7 @@
 import Rbdl
 import Rbdl.AlgDriver
 import Rbdl.GeomDriver
+import Rbdl.BalDriver
 /-
   Line-protocol driver of the executable model (`rbdl_model`): reads the same case file as the
   C++ harness (`harness/driver.cc`) from stdin, executes every operation over exact rationals
@@ -647,13 +648,15 @@ def doCall (d : DS) (t : Toks) : DS × String :=
   | "ZMP" =>
     let (n, t) := t.v3; let (p, t) := t.v3; let (u, _) := t.nat
     let (w, z) := calcZeroMomentPoint m d.w d.st d.qd d.qdd n p (u ≠ 0)
-    let o := out { d with w := w } name (showV3 z)
-    if u = 0 then o else
     let M := d.specModel; let st := d.specState
     -- net contact wrench about the base origin: momentum rate minus gravity
     let C := Spec.com M st; let Cdd := Spec.comAcceleration M st; let mass := Spec.totalMass M
-    let LdC := (Spec.angularMomentum M st).2
     let f : V3 Q := mass * (Cdd - M.gravity)
+    -- no net force along the normal: the zero-moment point does not exist (the C++ divides by zero)
+    if n.dot f = 0 then out { d with w := w } name "undefined" else
+    let o := out { d with w := w } name (showV3 z)
+    if u = 0 then o else
+    let LdC := (Spec.angularMomentum M st).2
     let n0 : V3 Q := LdC + C.cross f
     also o d "ZMP.spec" (showV3 ((1 / n.dot f) * (n.cross n0 + n.dot p * f)))
   | "KE" =>
@@ -666,6 +669,9 @@ def doCall (d : DS) (t : Toks) : DS × String :=
     let (w, e) := calcPotentialEnergy m d.w d.st (u ≠ 0)
     let o := out { d with w := w } name (showRat e)
     if u ≠ 0 then also o d "PE.spec" (showRat (Spec.potentialEnergy d.specModel d.specState)) else o
+  | "FPE" | "FPEG" | "FPED" =>   -- balance addon (C12): lean/Rbdl/BalDriver.lean
+    let (w, ls) := BalDriver.run parseRat cosSinApprox m d.w d.st d.qd d.specModel d.specState d.impl name t.l
+    ls.tail.foldl (fun r p => also r d p.1 p.2) (out { d with w := w } name (ls.headD ("", "")).2)
   | _ => out d name "bad-call"
 
 def afterAdd (d : DS) (r : ModelS Q × Except Err Nat) (name : String) : DS × String :=
